@@ -53,6 +53,12 @@ def _lscale(g, aas, beta0=7.0):
     return 1.0 + 2.0 * s * (abs(np.log(max(aas) / min(aas))) + 1.0) / beta0
 
 
+def _identity_exact_scale(g, bs, steps=1):
+    """|K(a,a)-1| of an exact closed form in units of eps: the logs of ratios z/z are exact for real z but carry
+    ~eps/2 for the complex roots of the N3LO form; the exponent is then sum_k gamma_k * (partial-fraction residues)."""
+    return steps * (4.0 + 2.0 * sum(abs(complex(g[k])) * evint.partial_fraction_amp(k + 1, bs) for k in range(len(bs))))
+
+
 def _trunc_cond(g, nf, order, aas):
     """Conditioning of the truncated / ordered-truncated forms from the independent U series."""
     bs = evint.betas_qcd(nf, order)
@@ -82,6 +88,8 @@ def _case_identity_ns(rng):
     K = complex(ns.dispatcher((o, 0), EvoMethods[m], g, a, a, nf))
     kap, tot, u1 = _trunc_cond(g, nf, o, [a])
     tol = 8 * EPS * (tot if m in ("TRUNCATED", "ORDERED_TRUNCATED") else 1.0) * (kap if m == "ORDERED_TRUNCATED" else 1.0)
+    if m in EXACT and o > 1:
+        tol = EPS * _identity_exact_scale(g, [float(b) for b in evint.betas_qcd(nf, o)])
     d = abs(K - 1)
     ok = np.isfinite(d) and d <= tol
     return dict(fam="identity_ns", site=f"identity/ns/{m.lower()}/order{o}", nf=nf, ok=ok, skip=kap > 1e3 and m == "ORDERED_TRUNCATED", nontrivial=bool(np.any(g != 0)), wit=dict(order=o, nf=nf, method=m, a=a, gamma=g, observed=K, expected=1.0, diff=d, tol=tol))
@@ -130,11 +138,14 @@ def _case_identity_qed(rng):
     a_half = np.zeros((n, 2))
     a_half[:, 0], a_half[:, 1] = a, aem
     which = ("ns", "valence", "singlet")[int(rng.integers(3))]
+    tol_eps = 4.0
     if which == "ns":
         g = _qed_gamma(rng, o, q)
         running = bool(rng.integers(2))
         K = np.array([[complex(qns.dispatcher((o, q), EvoMethods.ITERATE_EXACT, g, as_list, a_half[:, 1], running, nf, n, mu2, mu2))]])
         dim = 1
+        geff = [sum(g[k, j] * aem**j for j in range(q + 1)) for k in range(1, o + 1)]
+        tol_eps = _identity_exact_scale(geff, [float(b) for b in evint.betas_qed_fixed(nf, o, aem)], steps=n)
     elif which == "valence":
         g = _qed_gamma(rng, o, q, (2, 2))
         K = np.array(qv.dispatcher((o, q), EvoMethods.ITERATE_EXACT, g, as_list, a_half, nf, n, (10, 0)))
@@ -144,8 +155,8 @@ def _case_identity_qed(rng):
         K = np.array(qs.dispatcher((o, q), EvoMethods.ITERATE_EXACT, g, as_list, a_half, nf, n, (10, 0)))
         dim = 4
     d = float(np.max(np.abs(K - np.eye(dim)))) if K.shape == (dim, dim) else np.inf
-    ok = np.isfinite(d) and d <= 4 * EPS
-    return dict(fam="identity_qed", site=f"identity/qed-{which}/as{o}aem{q}", nf=nf, ok=ok, nontrivial=True, wit=dict(order=[o, q], nf=nf, which=which, a=a, aem=aem, mu2=mu2, iterations=n, gamma=g, observed=K, diff=d))
+    ok = np.isfinite(d) and d <= tol_eps * EPS
+    return dict(fam="identity_qed", site=f"identity/qed-{which}/as{o}aem{q}", nf=nf, ok=ok, nontrivial=True, wit=dict(order=[o, q], nf=nf, which=which, a=a, aem=aem, mu2=mu2, iterations=n, gamma=g, observed=K, diff=d, tol=tol_eps * EPS))
 
 
 def _case_compose_ns(rng, family):
